@@ -43,14 +43,19 @@ func units(tier string) []mc.Unit {
 		full[i] = i
 	}
 	noMeta := []int{0, 1, 2, 3, 4, 5} // the options without metadata
+	small := []int{0, 1, 4, 8}        // empty, one claim, two bridges, bridge+claim with 4 KiB metadata each
 	for _, start := range []uint64{1, 7} {
 		for n := 1; n <= 5; n++ {
 			alpha, an := full, "full"
-			if n == 5 && tier != "thorough" {
-				if start != 1 {
-					continue // quick tier: 5 blocks only from first block 1, without metadata
+			if tier != "thorough" { // quick tier: the longest ranges over reduced per-block alphabets
+				switch {
+				case n == 5 && start == 1:
+					alpha, an = small, "small"
+				case n == 5:
+					continue
+				case n == 4 && start == 7:
+					alpha, an = noMeta, "no-metadata"
 				}
-				alpha, an = noMeta, "no-metadata"
 			}
 			free := n
 			if free > 2 {
@@ -58,7 +63,10 @@ func units(tier string) []mc.Unit {
 			}
 			prefix := make([]int, n-free)
 			for {
-				p := cutParams{Start: start, N: n, Prefix: append([]int{}, prefix...), Free: free, Alpha: alpha}
+				p := cutParams{Start: start, N: n, Prefix: append([]int{}, prefix...), Free: free, Alpha: alpha, Types: 3}
+				if n == 5 && an == "full" {
+					p.Types = 2 // the optimistic type (sized like pp, limited like fep) is explored up to 4 blocks
+				}
 				us = append(us, mc.Unit{Name: fmt.Sprintf("cut start=%d blocks=%d alphabet=%s prefix=%v", start, n, an, prefix), Params: p})
 				// next prefix (odometer over the block alphabet)
 				i := len(prefix) - 1
@@ -107,8 +115,8 @@ func main() {
 		Run:   run,
 		Setup: func(string) { kit.Quiet() },
 		Rule: "cut unit = (first block, number of blocks, layout of the leading blocks); choice points = layout of the last two " +
-			"blocks (11 options each: {0,1,2 bridges}x{0,1 claims}x metadata {0,4096} bytes; quick tier, 5 blocks: first block 1 only and the 6 options without metadata), previous certificate " +
-			"(none/settled/in error = retry), certificate type (pp/fep/optimistic); inner loops (counted as evaluations) = every " +
+			"blocks (11 options each: {0,1,2 bridges}x{0,1 claims}x metadata {0,4096} bytes; quick tier: 4 blocks from first block 7 use the 6 options without metadata, 5 blocks are explored from first block 1 only over 4 options), previous certificate " +
+			"(none/settled/in error = retry), certificate type (pp/fep/optimistic; pp/fep only for 5 blocks over the full alphabet); inner loops (counted as evaluations) = every " +
 			"MaxCertSize in {0,1,maxuint} U {size(prefix)-1,size,size+1 for every prefix} through the real base flow, then for every " +
 			"distinct size-limited result every MaxL2BlockNumber in 0..from+6 through the real limiter in each configuration the " +
 			"flow of that certificate type uses, plus (once per layout and type) Range(a,b) for all a,b in [from-1,to+1]; " +
@@ -124,13 +132,13 @@ func main() {
 			"[0,0] doubles as the empty BlockRange and CountBlocks of [0,2^64-1] is not representable: both are reported, not judged",
 		},
 		Bounds: func(tier string) map[string]any {
-			perBlock := "{0,1,2 bridges}x{0,1 claims}x metadata {0,4096} for 1..4 blocks; 5 blocks: first block 1 only, without metadata"
+			perBlock := "{0,1,2 bridges}x{0,1 claims}x metadata {0,4096} for 1..4 blocks from block 1 and 1..3 blocks from block 7; 4 blocks from block 7 without metadata; 5 blocks from block 1 over {empty, 1 claim, 2 bridges, bridge+claim with 4096-byte metadata}"
 			if tier == "thorough" {
 				perBlock = "{0,1,2 bridges}x{0,1 claims}x metadata {0,4096}"
 			}
 			return map[string]any{"first_block": []int{1, 7}, "blocks": "1..5",
 				"per_block": perBlock, "max_cert_size": "0,1,maxuint and every prefix size -1/0/+1",
-				"max_l2_block": "0..from+6", "previous_certificate": "none/settled/inError", "certificate_type": "pp/fep/optimistic",
+				"max_l2_block": "0..from+6", "previous_certificate": "none/settled/inError", "certificate_type": "pp/fep/optimistic (5 blocks over the full alphabet: pp/fep)",
 				"range_endpoints": "0..5, 2^64-3..2^64-1 (all 45x45 pairs of well-formed ranges)"}
 		},
 	})
